@@ -142,7 +142,8 @@ class LMNN(MahalanobisMixin, TransformerMixin):
                     ' version 0.6.3 and will be removed in 0.7.0'
                     '', FutureWarning)
       n_neighbors = k
-    self.k = 'deprecated'  # To avoid no_attribute error
+      k = 'deprecated'
+    self.k = k  # To avoid no_attribute error
     self.n_neighbors = n_neighbors
     self.min_iter = min_iter
     self.max_iter = max_iter
